@@ -787,6 +787,10 @@ func (h *anteH) apply(ctx sdk.Context, s cfgSpec) {
 					h.r.Fail("C14/config/freeze-switch-not-as-set", fmt.Sprintf("SetNetworkProperty(%s, %d) (err=%v): the switch reads %v, asked for %v", sw.id, v, err, got, sw.want), nil)
 				}
 			}
+			// … and writing one switch leaves the other (and the fee bounds) as they were
+			if now := app.CustomGovKeeper.GetNetworkProperties(ctx); now.EnableTokenBlacklist != s.bl || now.EnableTokenWhitelist != s.wl || now.MinTxFee != s.min || now.MaxTxFee != s.max || now.EnableForeignFeePayments != s.foreign {
+				h.r.Fail("C14/config/freeze-switch-write-changed-another-setting", fmt.Sprintf("after the two switches were written one by one (blacklist=%v, whitelist=%v, on=%d) the properties read blacklist=%v whitelist=%v min=%d max=%d foreign=%v; set before: min=%d max=%d foreign=%v", s.bl, s.wl, on, now.EnableTokenBlacklist, now.EnableTokenWhitelist, now.MinTxFee, now.MaxTxFee, now.EnableForeignFeePayments, s.min, s.max, s.foreign), nil)
+			}
 		}
 	}
 	for _, t := range s.toks {
